@@ -68,6 +68,10 @@ def units(tier, seed):
     if tier == "thorough":
         for k in range(16):
             u.append(dict(layer="a", L=3, syms=SYMS, grid=True, chunk=[k, 16]))
+    # long rankings (more than a thousand results of one label in one Ap): one early TP, a long run of GT-less results, late results that
+    # become TPs only at looser thresholds
+    for n in ((1003, 2008) if tier == "quick" else (1003, 1502, 2008, 3001)):
+        u.append(dict(layer="long", n=n))
     for pol in (("DEFAULT", "ALLOW_ANY") if tier == "quick" else S.POLICIES):
         for k in range(8):
             u.append(dict(layer="b", policy=pol, grid=tier != "quick", nest=8 if tier == "quick" else 10, chunk=[k, 8]))
@@ -79,6 +83,10 @@ def bounds(tier, seed):
 
 
 def run_unit(unit, acc):
+    if unit["layer"] == "long":
+        for tail in (["d3"], ["d2", "d4"], ["d3", "N", "d4"]):
+            check_case(dict(layer="long", n=unit["n"], tail=tail), acc)
+        return
     if unit["layer"] == "a":
         k, n = unit["chunk"]
         idx = 0
@@ -174,6 +182,44 @@ def _walk(case, res_by_label, all_res, gts, gcount, labels, mode, lad, acc, bad)
     return changes, ev(0, 0), ev(n - 1, n - 1)
 
 
+def _check_long(case, acc, bad):
+    from mc.ref import ap as RAP
+    from perception_eval.evaluation.metrics.detection.ap import Ap
+    from perception_eval.evaluation.metrics.detection.tp_metrics import TPMetricsAp, TPMetricsAph
+    n, tail = case["n"], case["tail"]
+    syms = ["d0"] + ["N"] * (n - 1 - len(tail)) + list(tail)
+    res = []
+    for i, sy in enumerate(syms):
+        if sy == "N":   # GT-less result (cheap to build: no matching scores)
+            e = G.mk3d(dict(x=30.0 + 0.01 * i, y=2.0, yaw=0.3, label="CAR", score=0.99 - 0.0004 * i, uuid="e%d" % i, size=[2.0, 4.0, 1.5]))
+            res.append(DynamicObjectWithPerceptionResult(e, None))
+        else:
+            r = _proto(sy, i)
+            r.estimated_object.semantic_score = 0.99 - 0.0004 * i
+            res.append(r)
+    gcount = 1 + len([t for t in tail if t != "N"])
+    prev = None
+    for thr in (0.25, 0.5, 1.0, 2.0, 4.0, 50.0):
+        vals = {}
+        for nm, mcls in (("AP", TPMetricsAp), ("APH", TPMetricsAph)):
+            acc.exec()
+            a = Ap(mcls(), [list(res)], gcount, [CAR], MatchingMode.CENTERDISTANCE, [thr])
+            vals[nm] = a.ap
+            if nm == "AP":
+                seq = [1 if (sy != "N" and DIST_LEVELS[int(sy[1])] < thr) else 0 for sy in syms]
+                want = float(RAP.ap_from_ranking(seq, gcount))
+                if abs(a.ap - want) > 1e-9:
+                    bad("long:ap-value", "AP of a %d-result ranking at threshold %s is %r, the PR area is %r" % (n, thr, a.ap, want))
+        acc.compared()
+        if prev is not None:
+            for nm in vals:
+                if vals[nm] < prev[nm] - 1e-12:
+                    bad("ap-decreased:long:" + nm, "%s of a %d-result ranking drops from %r to %r when the threshold is loosened to %s" % (nm, n, prev[nm], vals[nm], thr))
+        prev = vals
+        acc.state(("long", n, tuple(tail), thr, round(vals["AP"], 6)), nontrivial=0 < vals["AP"] < 1)
+    acc.outcome(("long", round(prev["AP"], 4)))
+
+
 def check_case(case, acc):
     """the SAME result objects are judged under all four matching modes (as MetricsScore does), each along its ladder."""
     acc.case()
@@ -182,6 +228,8 @@ def check_case(case, acc):
     def bad(sig, msg):
         acc.violation(sig, msg + " | " + str({k: v for k, v in case.items() if k not in ("ests", "gts")}), case)
 
+    if case["layer"] == "long":
+        return _check_long(case, acc, bad)
     if case["layer"] == "a":
         seq = case["seq"]
         car = [_proto(s, i, "CAR") for i, s in enumerate(seq)]
